@@ -222,6 +222,13 @@ function focusNodes(r, fs_) {
   const it = (f) => X.mem(X.id('item'), f)
   const body = () => ({ t: 'el', tag: 'q', attrs: [{ fam: 'plain', name: 'v', value: M.ev(it('v')) }, { fam: 'data:', name: 'x', value: M.ev(it('x')) }], children: [{ t: 'text', v: M.mv('#', it('id'), ':', X.id('index'), ':', X.id(r.pick(['a', 'flag', 's'])), ':', X.idx(it('sub'), X.num('1'))) }] })
   const out = []
+  // a `slot` binding that becomes undefined (and a string again): the element then has no slot, as after a fresh creation
+  if (r.bool(0.25)) {
+    const c = () => X.id(r.pick(['a', 'b', 'flag', 's']))
+    const v = r.pick([() => X.cond(c(), X.str('s1'), X.kw('undefined')), () => X.cond(c(), X.kw('undefined'), X.id('s')), () => X.mem(X.id('ob'), r.pick(['zz', 'a'])), () => X.bin('||', X.bin('&&', c(), X.str('s2')), X.kw('undefined'))])()
+    const el = { t: 'el', tag: r.pick(['q', 'x-a', 'text']), attrs: [{ fam: 'slot', name: 'slot', value: M.ev(v) }], children: [] }
+    out.push(r.bool(0.3) ? { t: 'el', tag: 'x-a', attrs: [], children: [el] } : el)
+  }
   // several bindings of one event on one element (different phases / kinds, legacy spellings, and the same binding
   // twice - legal, see parse::tag::test::event_listener): each keeps its own listener through updates
   if (r.bool(0.3)) {
